@@ -2,12 +2,13 @@
 # usage: tools/harmless.sh [area...]  — run the relevant checks against every stored behaviour-preserving
 # refactoring (seeded/harmless/<area>/r<k>.diff) in an isolated copy; every VIOLATION is a false alarm
 cd "$(dirname "$0")/.."
-declare -A CHECKS=([pkt]="C12 C04" [cfg]="C16" [locks]="C20" [priv]="C18" [disp]="C17 C18" [strat]="C03 C09 C11")
+declare -A CHECKS=([pkt]="C12 C04" [cfg]="C16" [locks]="C20" [priv]="C18" [disp]="C17 C18" [strat]="C03 C09 C11"
+  [pkt2]="C12 C04" [cfg2]="C16" [locks2]="C20 C16 C09" [priv2]="C18 C17" [disp2]="C17 C18" [strat2]="C03 C06 C09 C11" [net2]="C11 C02 C04 C09" [state2]="C05 C10 C15 C19" [ck2]="C13 C14")
 for a in ${@:-pkt cfg locks priv disp strat}; do
   for f in seeded/harmless/$a/r?.diff; do
     d=$(mktemp -d /tmp/harmless.XXXX); cp $f $d/patch.diff
     for id in ${CHECKS[$a]}; do
-      r=$(ISO=/tmp/iso.harmless.$a tools/seediso.sh $d $id 2>&1 | grep -E "^(VIOLATION|OK)|patch does not apply" | head -1 | cut -c1-120)
+      r=$(ISO=/tmp/iso.harmless.$a.$$ tools/seediso.sh $d $id 2>&1 | grep -E "^(VIOLATION|OK)|patch does not apply" | head -1 | cut -c1-120)
       echo "$a $(basename $f .diff) $id: $r"
     done
     rm -rf $d
